@@ -190,24 +190,7 @@ func c06SingleWriter(p *core.Program, r *core.Report, t *types.Named) {
 	}
 	// one channel to the socket: bytes written to the connection around the buffered writer overtake
 	// the frames still waiting in its buffer (order of delivery is no longer order of acceptance)
-	var direct []string
-	for _, fi := range p.MethodsOf(t) {
-		if fi.Decl.Body == nil {
-			continue
-		}
-		rn := recvName(fi)
-		ast.Inspect(fi.Decl.Body, func(n ast.Node) bool {
-			if call, ok := n.(*ast.CallExpr); ok {
-				s := strings.ReplaceAll(stripSpaces(types.ExprString(call.Fun)), rn+".", "")
-				if s == "conn.Write" {
-					direct = append(direct, fi.Obj.Name()+" at "+p.Pos(call.Pos()))
-				}
-			}
-			return true
-		})
-	}
-	r.Check(len(direct) == 0, "C06.single-writer", "net/oneway.OneWayTcpClient direct writes to conn", "-", "every byte goes through the buffered writer",
-		fmt.Sprintf("the connection is written directly, around the buffered writer (%v): such a frame overtakes the frames still in the buffer", direct))
+	oneChannelToSocket(p, r, "C06.single-writer", t)
 	okW := len(uniq(writers)) == 1 && writers[0] == "send"
 	if okW {
 		r.OK("C06.single-writer", "net/oneway.OneWayTcpClient writers of wr", "-", "only send()")
@@ -1230,4 +1213,28 @@ func c06OptionsPure(p *core.Program, r *core.Report, rule string) {
 	if n == 0 {
 		r.Undec(rule, "net option constructors", "-", "no function returning TcpClientOption found")
 	}
+}
+
+// oneChannelToSocket: the client's connection is written only through its buffered writer. Bytes handed
+// to conn.Write directly overtake (or are spliced into) the frames still waiting in the writer's buffer:
+// the byte stream is then no longer a sequence of whole frames in the order they were accepted.
+func oneChannelToSocket(p *core.Program, r *core.Report, rule string, t *types.Named) {
+	var direct []string
+	for _, fi := range p.MethodsOf(t) {
+		if fi.Decl.Body == nil {
+			continue
+		}
+		rn := recvName(fi)
+		ast.Inspect(fi.Decl.Body, func(n ast.Node) bool {
+			if call, ok := n.(*ast.CallExpr); ok {
+				s := strings.ReplaceAll(stripSpaces(types.ExprString(call.Fun)), rn+".", "")
+				if s == "conn.Write" {
+					direct = append(direct, fi.Obj.Name()+" at "+p.Pos(call.Pos()))
+				}
+			}
+			return true
+		})
+	}
+	r.Check(len(direct) == 0, rule, "net/oneway.OneWayTcpClient direct writes to conn", "-", "every byte goes through the buffered writer",
+		fmt.Sprintf("the connection is written directly, around the buffered writer (%v): such a frame overtakes the frames still in the buffer", direct))
 }
